@@ -8,18 +8,28 @@ PROP = 'C13'
 LEAN_TARGETS = ['Props.C13']
 REQUIRED_THEOREMS = ['Props.C13.eval_keeps_state', 'Props.C13.train_updates_once', 'Props.C13.running_mean_exponential',
                      'Props.C13.running_mean_cumulative', 'Props.C13.no_track_uses_batch_stats', 'Props.C13.dropout_eval_identity',
-                     'Props.C13.dropout_train_spec', 'Props.C13.dropout_backward_same_mask']
+                     'Props.C13.dropout_train_spec', 'Props.C13.dropout_backward_same_mask',
+                     'Props.C13.attach_keeps_modes', 'Props.C13.register_keeps_modes', 'Props.C13.container_keeps_modes']
 RULE = ('BatchNorm: option grid momentum in {None, 0, .1, .5, 1} x affine x track_running_stats x input rank 2/3/4, random running '
         'statistics and affine parameters, histories of train/eval switches and forward calls on batches of varying size '
         '(incl. one value per channel); output values and (running_mean, running_var, num_batches_tracked) compared after every '
         'forward. Dropout: p over [0,1] incl. 0 and 1, train/eval, the uniform draws captured by wrapping np.random.rand so the '
-        'mask relation is exact; backward through the same mask. Non-trivial: a history with >= 2 training forwards and a mode switch.')
+        'mask relation is exact; backward through the same mask. BACKWARD passes inside the histories: forwards on inputs that require grad '
+        '(affine parameters trainable or frozen), any pending output back-propagated later, in any order, more than once, after further '
+        'mode switches and forwards; after every backward and after every eval / untracked forward the buffers, the counter and the mode '
+        'must be BIT-IDENTICAL to what they were before the call (kept=1). ATTACHMENT histories (BatchNorm and Dropout): the layer is '
+        'node 0 of a module tree that is built while the history runs - containers (Sequential / user Module) constructed around existing '
+        'nodes, attribute assignment and register_module of any node under any other, re-attachment to another parent, detaching by '
+        'assigning None / a plain value / another module under the name - interleaved with train()/eval() on ANY node and with forward '
+        '(+ backward) calls; the mode of every node is observed, the layer must behave according to the last switch that reached it '
+        'through the registrations that existed at the time of that call. Non-trivial: a history with >= 2 training forwards and a mode switch.')
 EXHAUSTIVE = {'quick': False, 'thorough': False}
 ASSUMPTIONS = ['float64 layers; np.mean/np.var pairwise summation differs from the model fold by rounding only (rel 1e-9 accepted)',
                'np.random.rand draws are captured, their distribution is trusted']
 TRUSTED_BASE = ['harness/props/c13.py (generator, canonicalisation)']
 MOMENTA = [None, 0.1, 0.5, 1.0, 0.0, 0.0]      # 0.0: the running statistics never move (a falsy value that is not None)
 VIA = ['self', 'self', 'parent', 'root']
+TNAMES = ['a', 'b', 'layer', '0', '1', '_m']      # attribute names used when a node is attached to a parent (a small pool: names get re-assigned)
 
 
 def gen_bn(rng, tier, mo, affine, track, rank):
@@ -30,20 +40,124 @@ def gen_bn(rng, tier, mo, affine, track, rank):
         evs.append(('setstats', [rng.dyadic(-2, 2) for _ in range(C)], [rng.randint(1, 32) / 8 for _ in range(C)]))
     if affine and rng.chance(0.7):
         evs.append(('setaffine', [rng.dyadic(-2, 2) for _ in range(C)], [rng.dyadic(-2, 2) for _ in range(C)]))
+    bw = rng.chance(.6)            # histories with backward passes
     for _ in range(rng.randint(2, 12 if tier == 'quick' else 30)):
         r = rng.random()
         # the switch reaches the layer directly, through its parent container, or through the root of a deeper tree
         if r < 0.2: evs.append(('train', rng.pick(VIA)))
         elif r < 0.4: evs.append(('eval', rng.pick(VIA)))
         else:
-            N = rng.pick([1, 2, 2, 3, 4, 5])
-            shape = (N, C) + rest
-            if rng.chance(.15):    # a channel whose level dwarfs its spread (2^26 + k/8: still exact in binary64): variance by cancellation would lose it
-                off = rng.pick([2.0 ** 26, -2.0 ** 26, 2.0 ** 24])
-                evs.append(('fwd', shape, [off + rng.dyadic(-4, 4) for _ in range(int(np.prod(shape)))]))
-            else:
-                evs.append(('fwd', shape, [rng.dyadic(-4, 4) if rng.chance(.5) else rng.uniform(-3, 3) for _ in range(int(np.prod(shape)))]))
+            evs.append(gen_fwd(rng, C, rest, bw))
+            if bw: evs += gen_bwd(rng, affine)
     return {'kind': 'bn', 'C': C, 'mo': mo, 'eps': rng.pick([1e-5, 1e-3, 0.5]), 'affine': affine, 'track': track, 'evs': evs}
+
+
+def gen_fwd(rng, C, rest, bw):
+    N = rng.pick([1, 2, 2, 3, 4, 5])
+    shape = (N, C) + rest
+    rg = int(bw and rng.chance(.8))        # the input requires grad
+    if rng.chance(.15):    # a channel whose level dwarfs its spread (2^26 + k/8: still exact in binary64): variance by cancellation would lose it
+        off = rng.pick([2.0 ** 26, -2.0 ** 26, 2.0 ** 24])
+        return ('fwd', shape, [off + rng.dyadic(-4, 4) for _ in range(int(np.prod(shape)))], rg)
+    return ('fwd', shape, [rng.dyadic(-4, 4) if rng.chance(.5) else rng.uniform(-3, 3) for _ in range(int(np.prod(shape)))], rg)
+
+
+def gen_bwd(rng, affine):
+    """after a forward: some backward passes through pending outputs (`which` counts back from the newest output that requires grad;
+    `keep` leaves the output pending, so that it is back-propagated again later), and now and then the affine parameters frozen / unfrozen"""
+    out = []
+    if affine and rng.chance(.15): out.append(('freeze', rng.randint(0, 1)))
+    for _ in range(rng.pick([0, 1, 1, 1, 2, 3])):
+        out.append(('bwd', rng.pick([0, 0, 0, 1, 2, 5]), rng.randrange(2 ** 31), int(rng.chance(.4))))
+    return out
+
+
+def gen_tree(rng, tier, layer, directed):
+    """the layer is node 0 of a module tree that grows and is re-wired while the history runs; train()/eval() on any node; forwards
+    (and backwards) in between.  `directed`: the history starts with the pattern `switch the layer (or a block around it) -> attach it
+    to a parent that is in the other mode -> call it`, the rest is random."""
+    c = {'kind': 'tree', 'layer': layer}
+    evs = []
+    if layer == 'bn':
+        C = rng.randint(1, 3)
+        rank = rng.pick([2, 3, 4])
+        rest = {2: (), 3: (rng.randint(1, 3),), 4: (rng.randint(1, 2), rng.randint(1, 3))}[rank]
+        c.update(C=C, mo=rng.pick(MOMENTA), eps=rng.pick([1e-5, 1e-3, 0.5]), affine=rng.chance(.5), track=rng.chance(.85))
+        if c['track'] and rng.chance(0.7):
+            evs.append(('setstats', [rng.dyadic(-2, 2) for _ in range(C)], [rng.randint(1, 32) / 8 for _ in range(C)]))
+        if c['affine'] and rng.chance(0.7):
+            evs.append(('setaffine', [rng.dyadic(-2, 2) for _ in range(C)], [rng.dyadic(-2, 2) for _ in range(C)]))
+        bw = rng.chance(.5)
+        def call():
+            return [gen_fwd(rng, C, rest, bw)] + (gen_bwd(rng, c['affine']) if bw else [])
+    else:
+        n = rng.randint(2, 8)
+        c.update(p=rng.pick([0.5, 0.25, 0.9, 0.1, 0.0, 1.0, rng.random()]), seed=rng.randrange(2 ** 31), n=n)
+        def call():
+            return [('dfwd', [rng.dyadic(-4, 4) or 1.0 for _ in range(n)], [rng.dyadic(-2, 2) for _ in range(n)])]
+    sub = [{}]                 # node -> {name: child}: kept to avoid cycles and to aim at names that are in use
+    def reaches(a, b):         # b is a or a descendant of a
+        return a == b or any(reaches(k, b) for k in sub[a].values())
+    def tnew(kids):
+        evs.append(('tnew', rng.pick('SM'), list(kids))); sub.append({str(i): k for i, k in enumerate(kids)})
+        return len(sub) - 1
+    def attach(parent, child, name=None):
+        name = name or rng.pick(TNAMES)
+        if rng.chance(.75):
+            evs.append(('tset', parent, name, f'm{child}'))
+            sub[parent].pop(name, None)
+        else:
+            evs.append(('treg', parent, name, child))
+        sub[parent][name] = child
+    def holder():              # a node around the layer (the layer itself when nothing holds it)
+        hs = [m for m in range(1, len(sub)) if reaches(m, 0)]
+        return rng.pick(hs) if hs and rng.chance(.6) else 0
+    if directed:
+        v = rng.randint(0, 1) if rng.chance(.3) else 0           # mostly: eval() first, then attached to a (training) parent
+        inner = 0
+        if rng.chance(.4): inner = tnew([0])                      # a block around the layer, switched as a whole
+        if rng.chance(.5): evs += call()
+        evs.append(('tmode', rng.pick([0, inner]), v))
+        if v == 0 and rng.chance(.75):
+            outer = tnew([inner] if rng.chance(.6) else [inner, inner])     # a freshly built container is in training mode
+        else:
+            outer = tnew([])
+            if rng.chance(.8): evs.append(('tmode', outer, 1 - v))
+            attach(outer, inner)
+        if rng.chance(.3): tnew([outer])
+        evs.append(('tflags',))
+        evs += call()
+        if rng.chance(.5): evs += call()
+    for _ in range(rng.randint(3, 10 if tier == 'quick' else 24)):
+        r = rng.random()
+        nn_ = len(sub)
+        if r < .16: evs.append(('tmode', 0, rng.randint(0, 1)))
+        elif r < .30: evs.append(('tmode', rng.randrange(nn_), rng.randint(0, 1)))
+        elif r < .40:
+            kids = [k for k in (rng.sample(range(nn_), min(nn_, rng.randint(0, 2))))]
+            h = holder()
+            if rng.chance(.5) and h not in kids: kids.append(h)
+            tnew(kids)
+        elif r < .55 and nn_ > 1:
+            parent, child = rng.randrange(1, nn_), holder() if rng.chance(.7) else rng.randrange(nn_)
+            if not reaches(child, parent): attach(parent, child)
+        elif r < .66 and nn_ > 1:
+            hs = [m for m in range(1, nn_) if 0 in sub[m].values()]            # detach: mostly the layer itself, from one of its holders
+            parent = rng.pick(hs) if hs and rng.chance(.6) else rng.randrange(1, nn_)
+            to0 = sorted(n_ for n_, k in sub[parent].items() if k == 0)
+            name = rng.pick(to0) if to0 and rng.chance(.7) else rng.pick(sorted(sub[parent])) if sub[parent] and rng.chance(.8) else rng.pick(TNAMES)
+            if rng.chance(.25) and nn_ > 2:          # ... or by putting another module under the name
+                other = rng.randrange(1, nn_)
+                if not reaches(other, parent): attach(parent, other, name)
+            else:
+                evs.append(('tset', parent, name, rng.pick(['none', 'other'])))
+                sub[parent].pop(name, None)
+        else:
+            evs += call()
+        if rng.chance(.35): evs.append(('tflags',))
+    evs += [('tflags',)] + call()
+    c['evs'] = evs
+    return c
 
 
 def gen_drop(rng):
@@ -97,13 +211,24 @@ def lines_of(c):
         return out
     if c['kind'] == 'drop':
         return [f"bn drop {fbits(c['p'])} {int(c['training'])} {show_floats(c['xs'])} {{us}}", f"bn dropbw {fbits(c['p'])} {show_floats(c['gs'])} {{us}}"]
-    out = [f"bn new {c['C']} {show_opt(lambda v: str(fbits(v)), c['mo'])} {fbits(c['eps'])} {int(c['affine'])} {int(c['track'])}"]
+    out = []
+    if c.get('layer') != 'drop':
+        out.append(f"bn new {c['C']} {show_opt(lambda v: str(fbits(v)), c['mo'])} {fbits(c['eps'])} {int(c['affine'])} {int(c['track'])}")
+    if c['kind'] == 'tree': out.append('bn tree')
+    nd = 0
     for e in c['evs']:
         if e[0] in ('setstats', 'setaffine'):
             out.append(f"bn {e[0]} {show_floats(e[1])} {show_floats(e[2])}")
         elif e[0] == 'fwd':
             sh = e[1]
             out.append(f"bn fwd {sh[0]} {sh[1]} {int(np.prod(sh[2:]))} {show_floats(e[2])}")
+        elif e[0] == 'dfwd':
+            us = show_floats(c['_us_list'][nd]); nd += 1
+            out += [f"bn tdrop {fbits(c['p'])} {show_floats(e[1])} {us}", f"bn tdropbw {fbits(c['p'])} {show_floats(e[2])} {us}"]
+        elif e[0] == 'freeze': pass                   # requires_grad of the affine parameters: nothing the model of the layer state knows about
+        elif e[0] == 'bwd': out.append('bn bwd')
+        elif e[0] == 'tnew': out.append(f'bn tnew {common.show_ints(e[2])}')
+        elif e[0] in ('tset', 'treg', 'tmode'): out.append(f'bn {e[0]} {e[1]} {e[2]}' + (f' {e[3]}' if len(e) > 3 else ''))
         else:
             out.append(f"bn {e[0]}")
     return out
@@ -120,7 +245,12 @@ def cases(rng, tier):
         out.append(gen_drop(rng))
     for _ in range(30 if tier == 'quick' else 800):
         out.append(gen_dropseq(rng))
+    for layer, n in (('bn', 50 if tier == 'quick' else 1500), ('drop', 40 if tier == 'quick' else 1000)):
+        for i in range(n):
+            out.append(gen_tree(rng, tier, layer, directed=i % 2 == 0))
     for c in out:
+        if c['kind'] == 'tree' and c['layer'] == 'drop':
+            _tree_drop_impl(c)       # captures the draws of every call
         if c['kind'] == 'dropseq':
             _dropseq_impl(c)
         if c['kind'] == 'drop':
@@ -136,38 +266,172 @@ def _state(bn, C):
     return f"rm={show_floats(rm)} rv={show_floats(rv)} nbt={bn.num_batches_tracked} training={int(bn.training)}"
 
 
+def _snap(bn):
+    """buffers (bytes and dtype), counter and mode of the layer"""
+    b = lambda t: None if t is None else (t.data.dtype.str, t.data.shape, t.data.tobytes())
+    return (b(bn.running_mean), b(bn.running_var), bn.num_batches_tracked, bool(bn.training))
+
+
+class Tree:
+    """the module tree around a layer: node 0 is the layer; containers are built around existing nodes, nodes are attached / detached by
+    assignment and register_module, train()/eval() are called on any node"""
+    def __init__(self, layer):
+        from synapgrad import nn
+        self.nn = nn
+        self.nodes = [layer]
+        class Block(nn.Module):
+            def forward(self, x): return x
+        self.Block = Block
+
+    def do(self, e):
+        nodes, nn = self.nodes, self.nn
+        if e[0] == 'tnew':
+            kids = [nodes[k] for k in e[2]]
+            if e[1] == 'S':
+                node = nn.Sequential(*kids)
+            else:
+                node = self.Block()
+                for i, k in enumerate(kids): setattr(node, str(i), k)
+            nodes.append(node); return f'm{len(nodes) - 1}'
+        if e[0] == 'tset':
+            setattr(nodes[e[1]], e[2], nodes[int(e[3][1:])] if e[3][0] == 'm' else None if e[3] == 'none' else 3.14); return 'ok'
+        if e[0] == 'treg':
+            nodes[e[1]].register_module(e[2], nodes[e[3]]); return 'ok'
+        if e[0] == 'tmode':
+            (nodes[e[1]].train if e[2] else nodes[e[1]].eval)(); return 'ok'
+        if e[0] == 'tflags':
+            return ','.join(str(int(x.training)) for x in nodes)
+        raise KeyError(e[0])
+
+
+class ModeSpec:
+    """the mode of every node as the property states it, kept from the program text alone: train()/eval() on a node set the mode of that
+    node and of everything registered below it AT THAT MOMENT; attaching, detaching and constructing containers never change a mode"""
+    def __init__(self):
+        self.sub, self.mode = [{}], [True]
+
+    def run(self, e):
+        if e[0] == 'tnew':
+            self.sub.append({str(i): k for i, k in enumerate(e[2])}); self.mode.append(True)
+        elif e[0] == 'tset':
+            self.sub[e[1]].pop(e[2], None)
+            if e[3][0] == 'm': self.sub[e[1]][e[2]] = int(e[3][1:])
+        elif e[0] == 'treg':
+            self.sub[e[1]][e[2]] = e[3]
+        elif e[0] == 'tmode':
+            todo, seen = [e[1]], set()
+            while todo:
+                k = todo.pop()
+                if k in seen: continue
+                seen.add(k); self.mode[k] = bool(e[2]); todo += list(self.sub[k].values())
+
+
+class BNWorld:
+    """one BatchNorm layer and what the history does to it (used by the correspondence run and by the oracle alike)"""
+    def __init__(self, c):
+        self.sg = common.impl()
+        from synapgrad import nn
+        self.c = c
+        self.bn = bn = nn.BatchNorm1d(c['C'], eps=c['eps'], momentum=c['mo'], affine=c['affine'], track_running_stats=c['track'], dtype=np.float64)
+        if c['kind'] == 'tree':
+            self.tree = Tree(bn)
+        else:
+            parent = nn.Sequential(bn)
+            self.who = {'self': bn, 'parent': parent, 'root': nn.Sequential(nn.ReLU(), parent)}
+        self.pending = []          # outputs that require grad and can be back-propagated (again)
+
+    def do(self, e):
+        """every event but the forward and backward calls"""
+        bn = self.bn
+        if e[0] == 'setstats':
+            if bn.running_mean is not None:
+                bn.running_mean.data = np.array(e[1], dtype=np.float64); bn.running_var.data = np.array(e[2], dtype=np.float64)
+            return 'ok'
+        if e[0] == 'setaffine':
+            bn.weight.data = np.array(e[1], dtype=np.float64); bn.bias.data = np.array(e[2], dtype=np.float64); return 'ok'
+        if e[0] in ('train', 'eval'):
+            getattr(self.who[e[1] if len(e) > 1 else 'self'], e[0])(); return 'ok'
+        if e[0] == 'freeze':
+            (bn.unfreeze if e[1] else bn.freeze)(); return None
+        return self.tree.do(e)
+
+    def forward(self, e):
+        x = self.sg.Tensor(np.array(e[2], dtype=np.float64).reshape(e[1]), requires_grad=bool(e[3]) if len(e) > 3 else False)
+        before = x.data.copy()
+        r = outcome(lambda: self.bn(x))
+        if not isinstance(r, str):
+            assert np.array_equal(before, x.data)
+            if r.requires_grad: self.pending.append(r)
+        return r
+
+    def backward(self, e):
+        """back-propagate a random upstream gradient through one of the pending outputs; False when there is none"""
+        if not self.pending: return False
+        j = len(self.pending) - 1 - e[1] % len(self.pending)
+        y = self.pending[j] if e[3] else self.pending.pop(j)
+        g = np.random.RandomState(e[2]).uniform(-2, 2, y.data.shape)
+        with common.quiet():
+            y.backward(self.sg.Tensor(g))
+        return True
+
+
 def _bn_impl(c):
+    out = []
+    w = BNWorld(c)
+    out.append('ok')
+    if c['kind'] == 'tree': out.append('m0')
+    for e in c['evs']:
+        s0 = _snap(w.bn)
+        if e[0] == 'fwd':
+            r = w.forward(e)
+            kept = int(_snap(w.bn) == s0)
+            out.append(f"{r} kept={kept} {_state(w.bn, c['C'])}" if isinstance(r, str) else f"out={show_floats(r.data.ravel())} kept={kept} {_state(w.bn, c['C'])}")
+        elif e[0] == 'bwd':
+            r = outcome(lambda: w.backward(e))
+            out.append(f"{r} {_state(w.bn, c['C'])}" if isinstance(r, str) else f"kept={int(_snap(w.bn) == s0)} {_state(w.bn, c['C'])}")
+        else:
+            r = outcome(lambda: w.do(e))
+            if r is not None: out.append(r)
+    return out
+
+
+def _tree_drop_impl(c):
+    """Dropout as node 0 of a tree; every call: forward on an input that requires grad, backward straight away; the uniform draws of each
+    call are captured (none are made in eval mode)"""
     sg = common.impl()
     from synapgrad import nn
-    out = []
-    def go():
-        bn = nn.BatchNorm1d(c['C'], eps=c['eps'], momentum=c['mo'], affine=c['affine'], track_running_stats=c['track'], dtype=np.float64)
-        parent = nn.Sequential(bn)
-        root = nn.Sequential(nn.ReLU(), parent)
-        who = {'self': bn, 'parent': parent, 'root': root}
-        out.append('ok')
+    caps = []
+    orig = np.random.rand
+    def rand(*a):
+        r = orig(*a); caps.append(r.copy()); return r
+    np.random.seed(c['seed'])
+    np.random.rand = rand
+    out, us_list, calls = ['m0'], [], []
+    try:
+        d = nn.Dropout(c['p'])
+        tree = Tree(d)
         for e in c['evs']:
-            if e[0] == 'setstats':
-                if bn.running_mean is not None:
-                    bn.running_mean.data = np.array(e[1], dtype=np.float64); bn.running_var.data = np.array(e[2], dtype=np.float64)
-                out.append('ok')
-            elif e[0] == 'setaffine':
-                bn.weight.data = np.array(e[1], dtype=np.float64); bn.bias.data = np.array(e[2], dtype=np.float64)
-                out.append('ok')
-            elif e[0] == 'train':
-                who[e[1] if len(e) > 1 else 'self'].train(); out.append('ok')
-            elif e[0] == 'eval':
-                who[e[1] if len(e) > 1 else 'self'].eval(); out.append('ok')
+            if e[0] != 'dfwd':
+                out.append(outcome(lambda: tree.do(e))); continue
+            del caps[:]
+            x = sg.Tensor(np.array(e[1], dtype=np.float64), requires_grad=True)
+            mode = bool(d.training)
+            def go():
+                y = d(x)
+                with common.quiet():
+                    y.backward(sg.Tensor(np.array(e[2], dtype=np.float64)))
+                return y
+            y = outcome(go)
+            us = [float(v) for u in caps for v in u.ravel()]
+            us_list.append(us if len(us) == c['n'] else [0.5] * c['n'])
+            if isinstance(y, str):
+                out += [y, y]; calls.append({'rejected': True})
             else:
-                x = sg.Tensor(np.array(e[2], dtype=np.float64).reshape(e[1]))
-                before = x.data.copy()
-                r = outcome(lambda: bn(x))
-                if isinstance(r, str):
-                    out.append(f"{r} {_state(bn, c['C'])}")
-                else:
-                    assert np.array_equal(before, x.data)
-                    out.append(f"out={show_floats(r.data.ravel())} {_state(bn, c['C'])}")
-    go()
+                out += [f"training={int(mode)} y={show_floats(y.data.ravel())}", f"g={show_floats(x.grad.data.ravel())}"]
+                calls.append({'mode': mode, 'same': y is x, 'draws': len(us), 'y': [float(v) for v in y.data.ravel()], 'g': [float(v) for v in x.grad.data.ravel()]})
+    finally:
+        np.random.rand = orig
+    c['_us_list'], c['_calls'] = us_list, calls
     return out
 
 
@@ -201,7 +465,9 @@ def _drop_impl(c):
 
 
 def impl(c):
-    if c['kind'] == 'bn':
+    if c['kind'] == 'tree' and c['layer'] == 'drop':
+        return _tree_drop_impl(c)
+    if c['kind'] in ('bn', 'tree'):
         return _bn_impl(c)
     if c['kind'] == 'dropseq':
         r = outcome(lambda: _dropseq_impl(c))
@@ -248,12 +514,18 @@ def compare(c, mo, io):
     diffs = [(c['lines'][k][:80], m[:200], str(i)[:200]) for k, (m, i) in enumerate(zip(mo, io)) if not _close_line(m, i)]
     if c['kind'] == 'drop' and not c['training'] and c.get('_same') is False:
         diffs.append(('eval', 'identity (same tensor)', 'new tensor'))
+    if c['kind'] == 'tree' and c['layer'] == 'drop':
+        for k, cl in enumerate(c.get('_calls', [])):
+            if not cl.get('rejected') and not cl['mode'] and (not cl['same'] or cl['draws']):
+                diffs.append((f'call {k} (eval)', 'identity (same tensor, no draw)', f"same={cl['same']} draws={cl['draws']}"))
     return diffs[:3]
 
 
 def nontrivial(c):
     if c['kind'] == 'dropseq':
         return True
+    if c['kind'] == 'tree':
+        return sum(e[0] in ('fwd', 'dfwd') for e in c['evs']) >= 2 and any(e[0] == 'tmode' for e in c['evs'])
     if c['kind'] == 'drop':
         return c['training'] and 0 < c['p'] < 1
     f = [e for e in c['evs'] if e[0] == 'fwd']
@@ -262,9 +534,42 @@ def nontrivial(c):
 
 def distribution(cases):
     d = {}
+    def inc(k, n=1): d[k] = d.get(k, 0) + n
     for c in cases:
-        k = c['kind'] + (f"/mo={c['mo']}/track={int(c['track'])}" if c['kind'] == 'bn' else '' if c['kind'] == 'dropseq' else f"/train={int(c['training'])}")
-        d[k] = d.get(k, 0) + 1
+        if c['kind'] == 'tree':
+            inc(f"tree/{c['layer']}")
+            spec = ModeSpec()
+            attached_since_switch = False
+            for e in c['evs']:
+                if e[0] in ('tnew', 'tset', 'treg', 'tmode'):
+                    before = list(spec.sub)
+                    holders0 = {m for m in range(len(spec.sub)) if 0 in spec.sub[m].values()}
+                    spec.run(e)
+                    holders1 = {m for m in range(len(spec.sub)) if 0 in spec.sub[m].values()}
+                    if e[0] == 'tmode':
+                        inc('tree: train()/eval() on ' + ('the layer' if e[1] == 0 else 'another node')); attached_since_switch = False
+                    elif holders1 - holders0:
+                        ms = {spec.mode[m] for m in holders1 - holders0}
+                        inc('tree: layer attached to a parent in ' + ('the same mode' if ms == {spec.mode[0]} else 'ANOTHER mode')); attached_since_switch = True
+                    elif holders0 - holders1: inc('tree: layer detached from a parent')
+                    elif e[0] == 'tnew': inc('tree: container built around other nodes')
+                    else: inc('tree: other node attached / detached')
+                elif e[0] in ('fwd', 'dfwd'):
+                    inc(f"tree: call with the layer in {'train' if spec.mode[0] else 'eval'} mode" + (', attached since its last mode switch' if attached_since_switch else ''))
+        else:
+            k = c['kind'] + (f"/mo={c['mo']}/track={int(c['track'])}" if c['kind'] == 'bn' else '' if c['kind'] == 'dropseq' else f"/train={int(c['training'])}")
+            inc(k)
+        if c['kind'] in ('bn', 'tree') and c.get('layer') != 'drop':
+            training, pend = True, 0
+            spec = ModeSpec()
+            for e in c['evs']:
+                if e[0] in ('train', 'eval'): training = e[0] == 'train'
+                elif e[0][0] == 't': spec.run(e); training = spec.mode[0]
+                elif e[0] == 'fwd':
+                    rg = len(e) > 3 and e[3]
+                    inc(f"bn forward: {'train' if training else 'eval'} mode, track={int(c['track'])}, input requires grad={int(bool(rg))}")
+                elif e[0] == 'bwd':
+                    inc(f"bn backward event with the layer in {'train' if training else 'eval'} mode, track={int(c['track'])}" + (' (output kept for another backward)' if e[3] else ''))
     return d
 
 
@@ -305,52 +610,109 @@ def oracle(c):
         if any(abs(a - b) > 1e-12 * (1 + abs(b)) for a, b in zip(gr, wg)):
             return {'key': {'kind': 'drop', 'cls': 'backward'}, 'case': _strip(c), 'what': f'gradient {gr}, expected {wg} (same mask)'}
         return None
+    if c['kind'] == 'tree' and c['layer'] == 'drop':
+        return _tree_drop_oracle(c)
     # batch norm: recompute with plain numpy from the documented rule
     C = c['C']
     rm, rv, nbt, training = np.zeros(C), np.ones(C), 0, True
     g, b = (np.ones(C), np.zeros(C)) if c['affine'] else (None, None)
-    bn = nn.BatchNorm1d(C, eps=c['eps'], momentum=c['mo'], affine=c['affine'], track_running_stats=c['track'], dtype=np.float64)
-    parent = nn.Sequential(bn)
-    who = {'self': bn, 'parent': parent, 'root': nn.Sequential(nn.ReLU(), parent)}
+    w = BNWorld(c)
+    bn = w.bn
+    spec = ModeSpec()
     for k, e in enumerate(c['evs']):
-        if e[0] == 'setstats':
-            if c['track']:
-                rm, rv = np.array(e[1]), np.array(e[2])
-                bn.running_mean.data = rm.copy(); bn.running_var.data = rv.copy()
-        elif e[0] == 'setaffine':
-            g, b = np.array(e[1]), np.array(e[2]); bn.weight.data = g.copy(); bn.bias.data = b.copy()
-        elif e[0] == 'train': training = True; who[e[1] if len(e) > 1 else 'self'].train()
-        elif e[0] == 'eval': training = False; who[e[1] if len(e) > 1 else 'self'].eval()
-        else:
-            x = np.array(e[2]).reshape(e[1])
-            r = outcome(lambda: bn(sg.Tensor(x.copy())))
-            axes = tuple(i for i in range(x.ndim) if i != 1)
-            n = x.size / C
-            use_batch = training or not c['track']
-            def fail(cls, what):
-                return {'key': {'kind': 'bn', 'cls': cls}, 'case': _strip(c, k + 1), 'what': what}
-            if use_batch and n <= 1:
-                if not isinstance(r, str):
-                    return fail('accept-n1', 'a batch with one value per channel was normalised with its own statistics')
-                if training and c['track']: nbt += 1   # as in PyTorch the counter advances before the call is rejected
-                continue
+        def fail(cls, what):
+            return {'key': {'kind': 'bn', 'cls': cls}, 'case': _strip(c, k + 1), 'what': what}
+        s0 = _snap(bn)
+        if e[0] == 'bwd':
+            r = outcome(lambda: w.backward(e))
             if isinstance(r, str):
-                return fail('rejected', 'forward raised on a legal batch')
-            sh = tuple(C if i == 1 else 1 for i in range(x.ndim))
-            m = x.mean(axes) if use_batch else rm
-            v = x.var(axes) if use_batch else rv
-            y = (x - m.reshape(sh)) / np.sqrt(v.reshape(sh) + c['eps'])
-            if g is not None: y = y * g.reshape(sh) + b.reshape(sh)
-            if training and c['track']:
-                nbt += 1
-                f = 1.0 / nbt if c['mo'] is None else c['mo']
-                rm = m * f + rm * (1 - f); rv = v * (n / (n - 1)) * f + rv * (1 - f)
-            if np.abs(r.data - y).max() > 1e-9 * (1 + np.abs(y).max()):
-                return fail('output', f'forward {k}: output differs from the documented normalisation by {np.abs(r.data - y).max()}')
-            if c['track']:
-                if np.abs(bn.running_mean.data - rm).max() > 1e-9 * (1 + np.abs(rm).max()) or np.abs(bn.running_var.data - rv).max() > 1e-9 * (1 + np.abs(rv).max()) \
-                        or bn.num_batches_tracked != nbt:
-                    return fail('running', f'forward {k} (training={training}): running statistics {bn.running_mean.data},{bn.running_var.data},{bn.num_batches_tracked} expected {rm},{rv},{nbt}')
+                return fail('backward-rejected', 'backward through an output of the layer raised')
+            if _snap(bn) != s0:
+                return fail('backward-state', f'a backward pass through an output of the layer (layer in {"training" if s0[3] else "eval"} mode now) changed its state: '
+                            f'{_state(bn, C)} (before: nbt={s0[2]}, rv={None if s0[1] is None else np.frombuffer(s0[1][2]).tolist()})')
+            continue
+        if e[0] != 'fwd':
+            if e[0] == 'setstats':
+                if c['track']: rm, rv = np.array(e[1]), np.array(e[2])
+            elif e[0] == 'setaffine': g, b = np.array(e[1]), np.array(e[2])
+            elif e[0] == 'train': training = True
+            elif e[0] == 'eval': training = False
+            r = outcome(lambda: w.do(e))
+            if r == 'rejected':
+                return fail('rejected', f'{e[0]} raised')
+            if e[0][0] == 't':
+                spec.run(e)
+                training = spec.mode[0]
+                flags = [bool(x.training) for x in w.tree.nodes]
+                if flags != spec.mode:
+                    return fail('mode', f'after {e}: the modes of the nodes are {[int(v) for v in flags]}; the last switches that reached them give {[int(v) for v in spec.mode]} '
+                                '(node 0 is the layer; attaching / detaching / building a container is not a mode switch)')
+            continue
+        x = np.array(e[2]).reshape(e[1])
+        r = w.forward(e)
+        axes = tuple(i for i in range(x.ndim) if i != 1)
+        n = x.size / C
+        use_batch = training or not c['track']
+        if not (training and c['track']) and _snap(bn) != s0:
+            return fail('eval-state', f'forward {k} in {"training" if training else "eval"} mode (track_running_stats={c["track"]}) changed the state of the layer: {_state(bn, C)}')
+        if use_batch and n <= 1:
+            if not isinstance(r, str):
+                return fail('accept-n1', 'a batch with one value per channel was normalised with its own statistics')
+            if training and c['track']: nbt += 1   # as in PyTorch the counter advances before the call is rejected
+            continue
+        if isinstance(r, str):
+            return fail('rejected', 'forward raised on a legal batch')
+        sh = tuple(C if i == 1 else 1 for i in range(x.ndim))
+        m = x.mean(axes) if use_batch else rm
+        v = x.var(axes) if use_batch else rv
+        y = (x - m.reshape(sh)) / np.sqrt(v.reshape(sh) + c['eps'])
+        if g is not None: y = y * g.reshape(sh) + b.reshape(sh)
+        if training and c['track']:
+            nbt += 1
+            f = 1.0 / nbt if c['mo'] is None else c['mo']
+            rm = m * f + rm * (1 - f); rv = v * (n / (n - 1)) * f + rv * (1 - f)
+        if np.abs(r.data - y).max() > 1e-9 * (1 + np.abs(y).max()):
+            return fail('output', f'forward {k} (the last mode switch that reached the layer: {"train" if training else "eval"}): output differs from the documented normalisation by {np.abs(r.data - y).max()}')
+        if c['track']:
+            if np.abs(bn.running_mean.data - rm).max() > 1e-9 * (1 + np.abs(rm).max()) or np.abs(bn.running_var.data - rv).max() > 1e-9 * (1 + np.abs(rv).max()) \
+                    or bn.num_batches_tracked != nbt:
+                return fail('running', f'forward {k} (training={training}): running statistics {bn.running_mean.data},{bn.running_var.data},{bn.num_batches_tracked} expected {rm},{rv},{nbt}')
+    return None
+
+
+def _tree_drop_oracle(c):
+    r = outcome(lambda: _tree_drop_impl(c))
+    if isinstance(r, str):
+        return {'key': {'kind': 'tree-drop', 'cls': 'rejected'}, 'case': _strip(c), 'what': 'the history raised'}
+    spec = ModeSpec()
+    p = c['p']; scale = 1 / (1 - p) if p < 1 else 1.0
+    nd, li = 0, 1
+    for k, e in enumerate(c['evs']):
+        def fail(cls, what):
+            return {'key': {'kind': 'tree-drop', 'cls': cls}, 'case': _strip(c, k + 1), 'what': what}
+        if e[0] != 'dfwd':
+            if r[li] == 'rejected': return fail('rejected', f'{e[0]} raised')
+            spec.run(e)
+            if e[0] == 'tflags' and r[li] != ','.join(str(int(v)) for v in spec.mode):
+                return fail('mode', f'modes of the nodes {r[li]}; the last switches that reached them give {[int(v) for v in spec.mode]} (node 0 is the Dropout layer)')
+            li += 1
+            continue
+        cl, us = c['_calls'][nd], c['_us_list'][nd]
+        nd += 1; li += 2
+        if cl.get('rejected'): return fail('rejected', 'Dropout forward / backward raised')
+        xs, gs = e[1], e[2]
+        if not spec.mode[0]:
+            if not cl['same'] or cl['y'] != xs or cl['g'] != gs:
+                return fail('eval', f'the last mode switch that reached the Dropout layer was eval(), but the call is not the identity: y={cl["y"]} for x={xs} ({cl["draws"]} draws)')
+            continue
+        if cl['draws'] != len(xs):
+            return fail('train', f'the last mode switch that reached the Dropout layer was train(), but the call made {cl["draws"]} draws for {len(xs)} elements')
+        wy = [0.0 if u <= p else x * scale for x, u in zip(xs, us)]
+        wg = [0.0 if u <= p else g_ * scale for g_, u in zip(gs, us)]
+        if any(abs(a - b) > 1e-12 * (1 + abs(b)) for a, b in zip(cl['y'], wy)):
+            return fail('forward', f'training output {cl["y"]}, expected {wy} for draws {us}')
+        if any(abs(a - b) > 1e-12 * (1 + abs(b)) for a, b in zip(cl['g'], wg)):
+            return fail('backward', f'gradient {cl["g"]}, expected {wg} (same mask)')
     return None
 
 
